@@ -42,6 +42,7 @@ class Ctx:
         self.site = 0
         self.prog = 0
         self.features: set = set()
+        self.bad_index = False
 
     def next_site(self) -> str:
         s = f"{MARK}s{self.site}"
@@ -113,6 +114,11 @@ def _operand(draw: Any, env: Env, cx: Ctx, pred: Any = _is_value, const_pool: An
         cx.features.add("index-chain")
     elif _n_idx(e) == 1:
         cx.features.add("index")
+    if cx.bad_index and e[0] == "i" and not cx.features & {"bad-index"} and draw(st.sampled_from([True] + [False] * 11)):
+        # the user's own indexing mistake: a key the producer's value does not have.  Plain Python raises
+        # KeyError / IndexError, so the DAG call must raise as well (it must not hand None to the consumer).
+        e = ["i", e[1], "zz" if isinstance(e[2], str) else 7]
+        cx.features.add("bad-index")
     return e, t
 
 
@@ -418,9 +424,10 @@ def _with_none(t: Ty, none: bool) -> Ty:
 
 
 @st.composite
-def rich_case(draw: Any, **kw: Any) -> Dict[str, Any]:
+def rich_case(draw: Any, bad_index: bool = False, **kw: Any) -> Dict[str, Any]:
     """A program plus an argument tuple (trailing defaulted parameters may be omitted)."""
     cx = Ctx()
+    cx.bad_index = bad_index
     P = draw(rich_prog(cx=cx, **kw))
     ptypes = P.pop("_ptypes")
     n_req = sum(1 for _n, d in P["params"] if d is None)
